@@ -22,7 +22,8 @@ CLAIMS = {
             "`modifiers()` consumes nothing; with COMPONENT_ALIAS off `parse_alias` returns no alias and reports nothing and "
             "`check_alias` reports nothing; with RANGE_VALUES off (or without a `-`) a value is never read as a range; a quantity "
             "with a `%` separator is never reinterpreted by the ADVANCED_UNITS path; with a front matter and MODES off a `>>` line is "
-            "never a metadata entry (steps and paragraphs never produce one); `BlockParser::extension` is exactly the flag "
+            "never a metadata entry (steps and paragraphs never produce one); with INTERMEDIATE_PREPARATIONS off no reference target "
+            "is read from the modifiers; `BlockParser::extension` is exactly the flag "
             "test. Analysis-stage gates and the composition to whole-recipe equality are not decided.", VERUS),
     "C03": ("proof", "Partial. Every panic!/assert!/debug_assert!/unwrap/expect/index/slice/arithmetic-overflow site and every loop's "
             "termination in the functions under contract (lexer, token stream, text, block parser, block splitter "
